@@ -16,6 +16,8 @@ pub enum UacEdit {
     Write(Map),
     /// raw bytes (possibly not JSON)
     Raw(Vec<u8>),
+    /// the same content, but a modification time one day BEFORE everything so far (an older copy restored)
+    Older,
 }
 
 #[derive(Clone, Debug, PartialEq)]
@@ -294,8 +296,9 @@ impl Session {
                     UacEdit::Delete => { let _ = std::fs::remove_file(&path); }
                     UacEdit::Write(m) => { let _ = std::fs::write(&path, map_json(m)); }
                     UacEdit::Raw(b) => { let _ = std::fs::write(&path, b); }
+                    UacEdit::Older => { if let Ok(f) = std::fs::File::options().write(true).open(&path) { let _ = f.set_modified(self.t0 - Duration::from_secs(86_400)); } }
                 }
-                if !matches!(edit, UacEdit::Keep | UacEdit::Delete) {
+                if !matches!(edit, UacEdit::Keep | UacEdit::Delete | UacEdit::Older) {
                     // modification times are set explicitly: strictly later than anything before
                     if let Ok(f) = std::fs::File::options().write(true).open(&path) {
                         // alternately 0.3 s and 10 s after the previous edit (a reload must not need whole seconds)
@@ -430,7 +433,7 @@ impl SEv {
             if let Some(d) = u.get("database") { return Some(SEv::UpdateDb(d.as_bool()?)); }
             if let Some(l) = u.get("layout") { return Some(SEv::UpdateLayout(l.as_str()?.to_string(), u["option_bits"].as_u64()? as u32)); }
             let e = u["user_autocorrect_edit"].as_str().unwrap_or("Keep");
-            let edit = if e.starts_with("Delete") { UacEdit::Delete } else if e.starts_with("Write") {
+            let edit = if e.starts_with("Delete") { UacEdit::Delete } else if e.starts_with("Older") { UacEdit::Older } else if e.starts_with("Write") {
                 // Write([("k", "v"), ...])
                 let mut m = Vec::new();
                 let mut rest = e;
